@@ -70,6 +70,8 @@ def formula_scope(name):
                 if g[0] in fm.TEMP and fm.temporal_count(g) == 2]
     if name == 'sib':
         return fm.ctls_siblings()
+    if name == 'sib/2':
+        return fm.ctls_siblings()[::2]
     if name == 'rep':
         return [(q, g) for q in 'AE' for g in fm.ltl_repeated()[::2]] + fm.ctl_repeated()[::9]
     if name == 'Qg-k3':
@@ -202,14 +204,14 @@ def run(ctx):
         scopes = [(1, 'Qg-k2', 1), (2, 'Qg-k1', 1), (2, 'Qg-k2', 24), (1, 'nest2', 1),
                   (2, 'nest2', 12), (2, 'bool2', 6), (3, 'Qg-k1', 331), (4, 'Qg-k1', 120011),
                   (3, 'Qg-tt', 401), (2, 'Qg-k3', 24), (3, 'Qg-k3', 3001), (2, 'nest3', 12), (3, 'nest3', 2003),
-                  (2, 'sib', 36), (3, 'sib', 4001), (2, 'rep', 72), (3, 'rep', 11003)]
+                  (2, 'sib/2', 36), (3, 'sib/2', 5501), (2, 'rep', 72), (3, 'rep', 11003)]
         ctx.scopes = ['S(1) x Qg-k2', 'S(2) x Qg-k1', 'every 24th of S(2) x Qg-k2', 'S(1) x nest2',
                       'every 12th of S(2) x nest2', 'every 6th of S(2) x bool2',
                       'every 331st of S(3) and every 120011th of S(4) x Qg-k1',
                       'every 401st of S(3) x Qg-tt (two nested temporal operators)',
                       'every 24th of S(2) and every 3001st of S(3) x Qg-k3 (every 97th body with exactly 3 operators)',
                       'every 12th of S(2) and every 2003rd of S(3) x nest3 (quantifier nesting 3)',
-                      'every 36th of S(2), every 4001st of S(3) x sib (1344 formulas quantifying one non-CTL path formula twice as siblings)',
+                      'every 36th of S(2), every 5501st of S(3) x every 2nd of sib (1344 formulas quantifying one non-CTL path formula twice as siblings)',
                       'every 72nd of S(2), every 11003rd of S(3) x rep (repeated subformulas under both polarities)']
     ctx.exhaustive = True
     ctx.assumptions = ['reference semantics vp/ref.py (R-STAR) is the trusted base',
